@@ -70,6 +70,12 @@ func checkC12(c *Ctx) {
 	sim := &SketchGen{Init: plainExact(2, "plain"), Tokens: append(append([]int{}, tokBins3...), tokZero...), Weights: []int{1, 2, 4, 8, 12},
 		Ops: []string{"Add", "AddW", "Merge", "Copy", "Clear", "EncDec", "DecodeNew", "Proto"}, Q: 4, QDen: 8, Depth: c.pick(12, 24), Simulate: true, Num: c.pick(1500, 40000)}
 	c.runSketchGen(sim, mx, c.pick(8, 16), "simulated histories, non-collapsing")
+	// "any sketch" includes the variant with exact statistics: its count, emptiness, extremes and clamped quantile
+	// answers must stay coherent with its bins after the same histories (copies must not share what they count with)
+	simx := *sim
+	simx.Init, simx.Num = plainExact(2, "exact"), c.pick(600, 15000)
+	mxx := &SketchMatrix{Mappings: mappingMatrix(c.alphas(), nil), Reals: exactRealKinds, Aspects: map[string]bool{"coherence": true, "exact": true}}
+	c.runSketchGen(&simx, mxx, c.pick(6, 12), "simulated histories, exact-statistics variant")
 	for _, ks := range [][]SketchInit{
 		sketches("plain", mk("low", 2), mk("low", 3), mk("high", 2), mk("high", 1)),
 		sketches("plain", mk("low", 3), mk("high", 2), ex0, ex0),
@@ -95,7 +101,7 @@ func checkC13(c *Ctx) {
 		if variant == "plain" || !c.quick() {
 			c.runSketchMC(g, c.pick(8, 8), "TypeOK K_Content X_Stats", "K_Refused K_OnlyReceiverChanges", variant+" variant, refused inputs")
 		}
-		mx := &SketchMatrix{Mappings: [][]MappingSpec{{{"log", 0.01}, second}, {{"linear", 0.05}, second}, {{"cubic", 0.001}, {"cubic", 0.0011}}, {{"log", 0.5}, {"linear", 0.5}}},
+		mx := &SketchMatrix{Mappings: [][]MappingSpec{{{"log", 0.01}, second}, {{"linear", 0.05}, second}, {{"cubic", 0.001}, {"cubic", 0.0011}}, {{"log", 0.5}, {"linear", 0.5}}, {{"log", 0.01}, {"linear@log", 0.01}}, {{"cubic", 0.05}, {"log@cubic", 0.05}}},
 			Reals: []string{"sparse", "paged"}, Aspects: map[string]bool{"bins": true, "refuse": true}}
 		tree := *g
 		tree.Depth = c.pick(2, 3)
@@ -124,6 +130,12 @@ func checkC10(c *Ctx) {
 	tree := &SketchGen{Init: two, Tokens: []int{11, -12, 2, 5001}, Weights: []int{0, 6}, Factors: [][2]int{{1, 2}},
 		Ops: []string{"AddW", "Merge", "Copy", "Clear", "Reweight", "EncDec", "DecodeNew"}, Q: 4, QDen: 8, Depth: c.pick(3, 4)}
 	c.runSketchGen(tree, mx, c.pick(4, 8), "exhaustive tree, exact variant")
+	// strong down-scaling: an error in how the sum (and its compensation term) is reweighted is magnified by 1/factor
+	down := &SketchGen{Init: plainExact(1, "exact"), Tokens: []int{11, 13, -12}, Weights: []int{4096, 12288}, Factors: [][2]int{{1, 1024}, {1, 4096}, {3, 1}},
+		Ops: []string{"AddW", "Reweight"}, Q: 4, QDen: 8, Depth: c.pick(5, 6)}
+	mxMid := *mx
+	mxMid.MidKeysOnly = true // weights of 1024 units at the largest indexable bins overflow float64 before the down-scaling
+	c.runSketchGen(down, &mxMid, c.pick(4, 8), "exhaustive tree with strong down-scaling reweights")
 	sim := &SketchGen{Init: plainExact(3, "exact"), Tokens: append(append([]int{}, tokBins3...), 0, -1, 2, -2, 3, -3, 5000, -5002), Weights: []int{0, 1, 2, 4, 8, 12, 400},
 		Factors: [][2]int{{1, 2}, {1, 4}, {2, 1}, {3, 1}}, Ops: []string{"Add", "AddW", "Merge", "Copy", "Clear", "Reweight", "EncDec", "DecodeNew"},
 		Q: 4, QDen: 8, Depth: c.pick(12, 24), Simulate: true, Num: c.pick(1500, 40000)}
